@@ -131,6 +131,8 @@ def run_case(tree, qq, idx, c):
     stream = multi_stream(c) if isinstance(c, Multi) else {"smtp": smtp_stream, "qmtp": qmtp_stream, "qmqp": qmqp_stream}[c.proto](c)
     if c.cut is not None:
         stream = stream[: c.cut]
+    if getattr(c, "lastbyte", None):
+        stream = stream[:-1] + c.lastbyte
     binary = {"smtp": "qmail-smtpd", "qmtp": "qmail-qmtpd", "qmqp": "qmail-qmqpd"}[c.proto]
     out, rc, to = sessions.run_daemon([tree.bin(binary)], stream, env, cwd=tree.root, timeout=30)
     return out, rc, to
@@ -169,6 +171,7 @@ def make_record(c, out, subs, acks=None):
           "hasinfo": "TCPREMOTEINFO" in e, "ip": B(e.get("TCPREMOTEIP", "unknown")), "local": B(e.get("TCPLOCALHOST") or e.get("TCPLOCALIP") or "unknown"),
           "proto": B(c.proto.upper())}
     return {"pf": pf, "proto": c.proto, "over": bool(c.over), "hops": bool(c.hops), "sbad": bool(c.sbad), "rc": c.rc, "cut": c.cut is not None or bool(getattr(c, "isfault", False)),
+            "incomplete": bool(getattr(c, "incomplete", False)),
             "qinv": qinv, "qcomplete": bool(complete), "qexit": c.qexit if qinv else 0, "qsig": bool(qinv and c.qdie == "sig"), "qtext": qtext,
             "acks": acks, "body": list(c.body), "got": list(got), "recv": list(recv), "xs": list(c.sender), "gs": list(gs),
             "xr": [list(r) for r in c.rcpts], "gr": [list(r) for r in gr], "note": c.note}
@@ -263,7 +266,17 @@ def gen_cases(rng, thorough):
         full = {"smtp": smtp_stream, "qmtp": qmtp_stream, "qmqp": qmqp_stream}[proto](base)
         end = len(full) - (len(b"QUIT\r\n") if proto == "smtp" else 0)
         for cut in range(0, end):
-            cs.append(Case(proto, base.body, s, list(base.rcpts), cut=cut, note="cut%d" % cut))
+            c_ = Case(proto, base.body, s, list(base.rcpts), cut=cut, note="cut%d" % cut)
+            c_.incomplete = True            # every one of these stops before the request is complete: nothing may be queued
+            cs.append(c_)
+        # the complete request with its very last byte replaced (QMTP / QMQP: the closing comma of the last netstring)
+        if proto != "smtp":
+            for bad in (b";", b"\n", b"0", b"\0", b":"):
+                c_ = Case(proto, base.body, s, list(base.rcpts), note="badlast%d" % bad[0])
+                c_.lastbyte = bad
+                c_.incomplete = True
+                c_.cut = len(full)           # (judged like a disconnect: no reply is demanded)
+                cs.append(c_)
     return cs
 
 
